@@ -239,3 +239,22 @@ Definition accrual_verdict (s : stxn) (ac : accrual) (ends : list Z) (ts : list 
   else if negb (dates_b (st_date s) (st_desc s) (ac_account ac) ends (st_bookings s) ts) then 4
   else if negb (targets_b (st_targets s) ts) then 5
   else 0.
+
+(* ---------------------------------------------------------------- the standing example *)
+Definition acc_equity_opening : account :=
+  [ [69;113;117;105;116;121]; [79;112;101;110;105;110;103] ].                       (* Equity:Opening *)
+Definition acc_expenses_rent : account :=
+  [ [69;120;112;101;110;115;101;115]; [82;101;110;116] ].                           (* Expenses:Rent *)
+Definition acc_assets_receivables : account :=
+  [ [65;115;115;101;116;115]; [82;101;99;101;105;118;97;98;108;101;115] ].          (* Assets:Receivables *)
+Definition chf : commodity := [67;72;70].
+
+(* @accrue monthly 2020-01-01 2020-03-31 Assets:Receivables
+   2020-01-15 "rent"
+   Equity:Opening Expenses:Rent 300 CHF *)
+Definition witness_accrual : accrual :=
+  mkAccrual Monthly (of_civil 2020 1 1) (of_civil 2020 3 31) acc_assets_receivables.
+Definition witness : stxn :=
+  mkStxn (of_civil 2020 1 15) [114;101;110;116]
+         [mkBooking acc_equity_opening acc_expenses_rent (mkDec 300 0) chf] None (Some witness_accrual).
+
